@@ -63,6 +63,7 @@ func runWalk(c *Ctx) {
 	}
 	var snaps []snap
 	var vstores []*ssa.Store
+	inheritPairs := map[string]bool{} // "consumer kind<-provider kind" of the walk's inheritance statements
 	for _, f := range p.ArgFuncs() {
 		core.Instrs(f, func(in ssa.Instruction) {
 			st, ok := in.(*ssa.Store)
@@ -125,7 +126,8 @@ func runWalk(c *Ctx) {
 					return
 				}
 				// (2) v.Value = prev.Value with prev = path[i-1] asserted as typed output, i > 0
-				if src, ok := core.AsFieldLoad(st.Val); ok && src.Owner == kinds.Out && src.Field == "Value" && (fr.Owner == kinds.Value || fr.Owner == kinds.Out) {
+				// … or, for a named vertex, as the named vertex before it (a name without subtype linked to its subtyped namesake)
+				if src, ok := core.AsFieldLoad(st.Val); ok && src.Field == "Value" && ((src.Owner == kinds.Out && (fr.Owner == kinds.Value || fr.Owner == kinds.Out)) || (src.Owner == kinds.Value && fr.Owner == kinds.Value)) {
 					prevOK, posIdx := false, false
 					// one-level helper form: r, ok := prev(path, idx) with ok guarding the store
 					if e, ok := src.Base.(*ssa.Extract); ok && e.Index == 0 {
@@ -170,8 +172,11 @@ func runWalk(c *Ctx) {
 							}
 						}
 					}
+					if prevOK && posIdx {
+						inheritPairs[fr.Owner+"<-"+src.Owner] = true
+					}
 					c.R.Add("WALK", key+"|inherits-from-preceding-typed-output", name, p.InstrPos(st), prevOK && posIdx,
-						"a vertex inherits a value only from the typed-output vertex immediately before it on the same path", fmt.Sprintf("predecessor-on-same-path=%v index>0=%v", prevOK, posIdx))
+						"a vertex inherits a value only from the typed-output (or, for a named vertex, named) vertex immediately before it on the same path", fmt.Sprintf("predecessor-on-same-path=%v index>0=%v", prevOK, posIdx))
 					return
 				}
 				// (3) planning mode: zero value of the vertex's own type
@@ -325,6 +330,31 @@ func runWalk(c *Ctx) {
 		})
 		if nb == 0 {
 			c.R.Add("BIND", "resolver|requirement-bound-when-classified", "resolver", p.Pos(res.Pos()), false, "requirements that already carry a value are bound directly", "no direct binding found")
+		}
+	}
+
+	// ---------------- the builder's edge classes and the walk's cases agree: for every class of edge that lets a named or
+	// typed-output vertex depend on a named or typed-output vertex, the walk hands the provider's value to the consumer
+	// (otherwise a path through such an edge loses the value at that hop: the vertex after it stays unset)
+	{
+		need := map[string]string{}
+		for _, e := range c.edgeRules() {
+			if len(e.CK) != 1 || len(e.PK) != 1 {
+				continue
+			}
+			ck, pk := e.CK[0], e.PK[0]
+			if (ck == kinds.Value || ck == kinds.Out) && (pk == kinds.Value || pk == kinds.Out) {
+				need[ck+"<-"+pk] = e.Class
+			}
+		}
+		var keys []string
+		for k := range need {
+			keys = append(keys, k)
+		}
+		sort.Strings(keys)
+		for _, k := range keys {
+			c.R.Add("WALK", "edge-class-has-a-walk-case|"+k, "resolver", p.Pos(res.Pos()), inheritPairs[k],
+				"every edge class between value-carrying vertices (class "+need[k]+": "+k+") has a statement in the walk that hands the provider's value to the consumer", ternary(inheritPairs[k], "handed on", "no inheritance statement for this pair of kinds: a path through such an edge loses the value"))
 		}
 	}
 
